@@ -360,7 +360,7 @@ func (r *Run) applyContract(st *State, fr *Frame, x *ssa.Call, callee *ssa.Funct
 	}
 	freshResult := spec.Has("freshresult")
 	// frame
-	comps, all := r.specWrites(spec)
+	comps, all := r.specModifies(spec)
 	if !spec.Has("pure") {
 		hasMod := len(spec.ClausesOf("modifies")) > 0
 		if all || !hasMod {
